@@ -210,3 +210,67 @@ theorem scatter_fix_both_mem_activeCols (inp : Input) (hd : inp.doubleEnded = tr
     · right; omega
 
 end DtsVerif.C02
+
+namespace DtsVerif.C07
+open DtsVerif.Scatter DtsVerif.Calib DtsVerif.Calib.Input DtsVerif.Py
+
+theorem mem_arange (lo hi c : Nat) : c ∈ arange lo hi ↔ lo ≤ c ∧ c < hi := by
+  unfold arange
+  simp only [List.mem_map, List.mem_range]
+  constructor
+  · rintro ⟨k, hk, rfl⟩; omega
+  · rintro ⟨h1, h2⟩; exact ⟨c - lo, by omega, by omega⟩
+
+theorem mem_ipUseS (am fg fa fd : Bool) (nt nx nta c : Nat) :
+    c ∈ ipUseS am fg fa fd nt nx nta ↔
+      c < (if am then 1 + nx + nt + nta * nt else 1 + 1 + nt + nta * nt) ∧
+      ¬ (fg = true ∧ c = 0) ∧ ¬ (fa = true ∧ 1 ≤ c ∧ c < nx + 1) ∧ ¬ (fd = true ∧ c = 1) := by
+  unfold ipUseS
+  cases am <;> cases fg <;> cases fa <;> cases fd <;>
+    simp [List.mem_filter, List.mem_range, mem_arange] <;> omega
+
+/-- **single-ended: the solver's result is scattered onto exactly the model's unknowns**, for every combination of `fix_gamma`,
+`fix_dalpha`, `fix_alpha` the API accepts and every size: a full-layout position receives the solved value / covariance iff the
+model counts that parameter among the unknowns; every other position keeps the supplied value with its variance on the diagonal
+and zero covariance (`C07_fixed_reported`) -/
+theorem scatter_single_mem_activeCols (inp : Input) (hd : inp.doubleEnded = false)
+    (hex : inp.fixAlpha.isSome = true → inp.fixDalpha = none) (c : Nat) :
+    c ∈ ipUseS inp.fixAlpha.isSome inp.fixGamma.isSome inp.fixAlpha.isSome inp.fixDalpha.isSome inp.nt inp.N inp.nta
+      ↔ c ∈ inp.activeCols := by
+  rw [mem_ipUseS]
+  unfold activeCols
+  simp only [List.mem_filter, List.mem_range, hd, Bool.false_eq_true, if_false, Bool.and_true]
+  have ham : inp.alphaMode = inp.fixAlpha.isSome := by simp [alphaMode, hd]
+  have hnpar : inp.npar = if inp.fixAlpha.isSome then 1 + inp.N + inp.nt + inp.nt * inp.nta else 2 + inp.nt + inp.nt * inp.nta := by
+    simp [npar, hd, ham]
+  rw [hnpar]
+  have hmul : inp.nta * inp.nt = inp.nt * inp.nta := Nat.mul_comm _ _
+  rw [hmul]
+  cases hfa : inp.fixAlpha with
+  | none =>
+    have hfix : (inp.fixedCol c).isNone = true ↔ ¬ (inp.fixGamma.isSome = true ∧ c = 0) ∧ ¬ (inp.fixDalpha.isSome = true ∧ c = 1) := by
+      unfold fixedCol
+      simp only [colGamma, colDalpha, hd, ham, hfa, Option.isSome_none, Bool.not_false, Bool.true_and]
+      by_cases h0 : c = 0
+      · subst h0; cases inp.fixGamma <;> simp
+      · by_cases h1 : c = 1
+        · subst h1; cases inp.fixDalpha <;> simp
+        · simp [h0, h1]
+    rw [hfix]
+    simp
+  | some av =>
+    have hdal : inp.fixDalpha = none := hex (by simp [hfa])
+    have hcolA : inp.colA 0 = 1 := by simp [colA, hd]
+    have hfix : (inp.fixedCol c).isNone = true ↔ ¬ (inp.fixGamma.isSome = true ∧ c = 0) ∧ ¬ (1 ≤ c ∧ c < inp.N + 1) := by
+      unfold fixedCol
+      simp only [colGamma, hd, ham, hfa, Option.isSome_some, Bool.not_true, Bool.and_false, Bool.false_and, hcolA]
+      by_cases h0 : c = 0
+      · subst h0; cases inp.fixGamma <;> simp
+      · by_cases hr : 1 ≤ c ∧ c < 1 + inp.N
+        · simp [h0, hr.1, hr.2]; omega
+        · have : ¬ ((decide (1 ≤ c) && decide (c < 1 + inp.N)) = true) := by simpa using hr
+          simp [h0, this]; omega
+    rw [hfix]
+    simp [hdal]
+
+end DtsVerif.C07
